@@ -336,12 +336,6 @@ def judge(spec, n, xk, entry, method, order, gen, orc, res):
 def judge_agree(spec, n, method, order, gen, orc, resH, resD):
     """|diag(Hessian) - Hessdiag| <= K1 (est_H + est_D) + floor on class-A diagonal entries."""
     v = Verdict()
-    if resH['status'] != 'ok' or resD['status'] != 'ok':
-        return v
-    H, D = np.asarray(resH['val']), np.asarray(resD['val'])
-    if H.shape != (n, n) or D.size != n:
-        return v
-    D = D.reshape(n)
     tH = entry_terms(orc, 'Hessian', method, None, gen)
     tD = entry_terms(orc, 'Hessdiag', method, order, gen)
     if tH is None or tD is None:
@@ -349,6 +343,17 @@ def judge_agree(spec, n, method, order, gen, orc, resH, resD):
     mask = np.diag(tH['classA']) & np.diag(tD['classA'])
     if not mask.any():
         return v
+    # coverage is decided here, from oracle-side quantities only; what the library returned comes after
+    v.nontrivial = True
+    v.cells.append('agree/%s/order=%d' % (method, order))
+    if resH['status'] != 'ok' or resD['status'] != 'ok':
+        v.outcome = 'not-comparable'       # the failing call is reported by judge() under its own key
+        return v
+    H, D = np.asarray(resH['val']), np.asarray(resD['val'])
+    if H.shape != (n, n) or D.size != n:
+        v.outcome = 'not-comparable'
+        return v
+    D = D.reshape(n)
     try:
         eH = np.abs(np.diag(np.asarray(resH['est']).reshape(n, n)))
         eD = np.abs(np.asarray(resD['est']).reshape(n))
@@ -364,8 +369,6 @@ def judge_agree(spec, n, method, order, gen, orc, resH, resD):
     r = np.where(mask, diff / np.where(bound > 0, bound, 1e-300), -1.0)
     idx = int(np.argmax(np.where(np.isfinite(r), r, np.inf)))
     wr = float(r[idx]) if math.isfinite(float(r[idx])) else 1e300
-    v.nontrivial = True
-    v.cells.append('agree/%s/order=%d' % (method, order))
     v.maxi('worst/agree-ratio/%s/%d' % (method, order), wr)
     if CALIBRATE:
         nd_ = float(np.max(need))
@@ -465,8 +468,7 @@ def required_cells(ctx):
         req += ['Hessian/complex-valued-f/%s' % m, 'Hessdiag/complex-valued-f/%s' % m]
     req += ['Hessian/family=%s' % f for f in ('quad', 'esq', 'ridge', 'cplx')]
     req += ['x=%s' % k for k in XKINDS]
-    if not CALIBRATE:
-        req += ['agree/%s/order=%d' % (m, o) for m in METHODS for o in HD_ORDERS]
+    req += ['agree/%s/order=%d' % (m, o) for m in METHODS for o in HD_ORDERS]
     if not ctx.quick:
         req += ['Hessian/gen=%s' % g for g in ('Max', 'Min', 'scalar')]
     return req
